@@ -472,8 +472,8 @@ Section Rename.
     { unfold cap_allows. cbn [rename_triple tp to]. destruct (str_eqb (tp t) tau) eqn:Et; [|reflexivity].
       cbn [negb]. destruct (to t) as [o|l dt] eqn:Eo; [|reflexivity]. cbn [rename_obj].
       destruct (B o eq_refl eq_refl) as [B1 _]. rewrite B1. reflexivity. }
-    rewrite Ec. destruct (cap_allows tau cap st t) as [[|]|]; [|apply (IH _ _ Hg) | reflexivity].
     rewrite relevant_rename. destruct (relevant tau m t) eqn:Hr; [|apply (IH _ _ Hg)].
+    rewrite Ec. destruct (cap_allows tau cap st t) as [[|]|]; [|apply (IH _ _ Hg) | reflexivity].
     assert (Et : str_eqb (tp t) tau = true) by (unfold relevant in Hr; apply andb_true_iff in Hr; apply Hr).
     cbn [rename_triple to ts]. destruct (to t) as [o|l dt] eqn:Eo; [|reflexivity]. cbn [rename_obj].
     destruct (B o eq_refl Et) as [B1 _]. rewrite B1, A, <- dupd_rename_insts.
